@@ -53,6 +53,7 @@ def instances(tier, seed):
     add("rt:full:terms-without-coefficient-tables", style='full', N=2, terms={'bond': 1, 'angle': 1}, tilt='zero', c0=None, type_hi=3, cost=30)
     add("rt:full:bond:ortho:bead-model-masses-no-element", style='full', N=2, terms={'bond': 1}, tilt='zero', c0=1, type_table='beads', cost=30)
     add("rt:atomic:no-terms:bead-model-masses-no-element", style='atomic', N=2, terms={}, tilt='zero', c0=None, type_table='beads', cost=10)
+    add("rt:full:bond:ortho:history:written-before-with-other-labels", style='full', N=2, terms={'bond': 1}, tilt='zero', c0=0, history='written-before-with-other-labels', cost=30)
     add("dispatch:path-and-file", family='dispatch', cost=3)
     add("wide-fields", family='wide', cost=2)
     add("many-types", family='many', cost=2)
@@ -194,6 +195,18 @@ def body(ctx, p):
         return many_body(ctx, p)
     Atoms = ctx.ms.Atoms
     a, sp, cell, kw, ncoef = build(ctx, p)
+    if p.get('history') == 'written-before-with-other-labels':
+        # HISTORY: the object was written once while its types still carried other labels / other coefficient texts of the same count (before a
+        # re-parameterisation); what is written now states the object as it is now
+        tt = type_table(p)
+        keep = (list(a.atom_type_labels), list(a.pair_coeffs))
+        a.atom_type_labels = [str(x)[::-1] + "_old" for x in tt['labels']]
+        if len(a.pair_coeffs):
+            a.pair_coeffs = np.array([str(x) + " 9" for x in a.pair_coeffs])
+        a.save_lmpdat(io.StringIO(), atom_format=p['style'])
+        a.save_lmpdat(io.StringIO(), atom_format='atomic' if p['style'] == 'full' else 'full')
+        a.atom_type_labels = keep[0]
+        a.pair_coeffs = np.array(keep[1]) if len(keep[1]) else a.pair_coeffs[:0]
     style = p['style']
     N = p['N']
     f = io.StringIO()
